@@ -25,6 +25,9 @@ CHECKS = [
  ("C07", "exploration", "history invariant over byte snapshots of every blob file + append-only rules over the I/O tap trace",
   "Histories over all public calls, restarts with index damage and crash-restarts with harness-made blob damage that forces quarantine. After every step every *.blob (work dir and corrupted dir) is compared byte-wise with its previous snapshot (prefix-monotone, or moved intact to the corrupted dir and immutable there), new blob ids must never have been used in either directory, and the tap trace must show only append-position writes to blobs, no truncate/remove/foreign rename of a blob, and no mutation event at all while a batch of every query kind runs at idle.",
   "Blob damage injected by the harness re-baselines the snapshot. Crash copies and I/O failpoints are exercised by C06/C11 with their own no-harm clauses."),
+ ("C08", "exploration", "concurrent history checking: N real client tasks with logical-clock stamps, max-register linearizability conditions, sequential-model equality at quiescence, independent parse of every blob file",
+  "2-200 client tasks (bursts of 500-12000 writers) run seeded scripts against one Storage while a maintenance task switches/syncs/frees/closes underneath and blobs rotate every 20-80 records, on three runtime configurations and on fresh or reopened active blobs. Every completed read is checked against the three max-register linearizability conditions (nothing invented, not stale, monotone), the final state against the sequential model of acknowledged operations, and every blob file against tiling / offset / checksum / exactly-once rules. Deadlock is reported only on a structural witness from the H3 probe.",
+  "Weakest fit of the technique: interleavings are sampled from the real scheduler, not enumerated or controlled; a race with a microsecond window can be missed. The replay re-runs the same scripts but re-samples the schedule. Open known finding: the ~8000-writer channel/lock deadlock (burst phase)."),
  ("C09", "exploration", "differential property testing of the index through a probe hook (in-memory vs on-disk vs sorted-list model) + enumerated shape sweep",
   "Generated header multisets (11 key lengths, fan-out 5..454, runs around block boundaries, ties, markers) are pushed into the real index, dumped, loaded back and reopened; every lookup kind for present and absent keys is compared in all four stages with an independent sorted-list model. Enumerated sweep of key counts around powers of the fan-out per key length.",
   "Uses the H5 IndexProbe hook (thin wrapper, no logic). Up to 3000 keys / 6000 headers per case; for >300 keys a spread subset of keys plus leaf-boundary keys is queried in the quick tier."),
@@ -49,6 +52,9 @@ CHECKS = [
  ("C16", "fault_enumeration", "property testing of the offline tools on storage-produced blobs under generated truncation / byte-flip damage per position class",
   "Blobs produced by generated single-blob histories; undamaged files must pass validate_blob/validate_index, read_index must report exactly the parser's headers, migrate_blob must preserve every record. One generated damage (truncation inside a record per class, or a flipped byte in one of 15 position classes): validate_blob must reject, recovery_blob (skip off/on) must produce a valid blob with every intact record before the damage (and after it when skipping applies), correct blob_offsets, nothing invented, and a Storage opened on the output must serve every contained record with its original bytes.",
   "Known findings (open): flips in the blob header's version/flags fields and decodable flips in meta bytes are accepted by validate_blob (no checksum covers them); those cases print KNOWN-FINDING and are excluded from the reject clause only."),
+ ("C17", "exploration", "cross-version differential against a committed corpus written by the pinned tree, exhaustively enumerated index-presence subsets and mismatch mutations",
+  "9 corpus directories written by the pinned release with recorded answers; for every subset of removed index files and both init modes the current code must reproduce every recorded answer and rebuild byte-identical index files; a bumped blob version must make init fail, a bumped index version must be healed by regeneration, another key size must never yield a successful read.",
+  "Only formats the pinned tree can write; small corpus by construction. The oracle is the old code's recorded behaviour."),
 ]
 
 def main():
